@@ -98,6 +98,8 @@ pub struct Profile {
     pub links_in_headings: bool,
     /// 0 = lists up to 13 items, 1 = also ~100, 2 = also ~1000
     pub long_lists: u8,
+    /// internal links inside table cells (C05 leaves cells undecided)
+    pub cell_internal_links: bool,
 }
 
 impl Profile {
@@ -120,6 +122,7 @@ impl Profile {
             force_title: None,
             links_in_headings: false,
             long_lists: 1,
+            cell_internal_links: true,
         }
     }
     pub fn has(&self, c: &str) -> bool {
@@ -175,7 +178,15 @@ impl<'a> Gen<'a> {
         if self.p.targets.is_empty() {
             return None;
         }
-        let t = self.rng.pick(&self.p.targets).clone();
+        let pool: Vec<Target> = if in_table && !self.p.cell_internal_links {
+            self.p.targets.iter().filter(|t| t.external).cloned().collect()
+        } else {
+            self.p.targets.clone()
+        };
+        if pool.is_empty() {
+            return None;
+        }
+        let t = self.rng.pick(&pool).clone();
         let text = self.plain_words(1, 2);
         if t.external {
             let style = if self.rng.chance(1, 4) {
@@ -220,7 +231,16 @@ impl<'a> Gen<'a> {
             let r = self.rng.below(if rich { 24 } else { 12 });
             let item = match r {
                 0..=7 => self.word(),
-                8 => Inl::Emph(self.plain_words(1, 2)),
+                8 => {
+                    if rich && self.rng.chance(1, 3) {
+                        match self.link(in_table) {
+                            Some(l) => Inl::Emph(vec![l]),
+                            None => Inl::Emph(self.plain_words(1, 2)),
+                        }
+                    } else {
+                        Inl::Emph(self.plain_words(1, 2))
+                    }
+                }
                 9 => Inl::Strong(self.plain_words(1, 2)),
                 10 => Inl::Emph(self.plain_words(1, 3)),
                 11 => {
